@@ -99,7 +99,7 @@ SHAPES = [(), (2,), (2, 2), (2, 3)]
 def cases(tier, seed):
     out = []
     ninfs = (0, 1, 2)
-    for shape in SHAPES:
+    for shape in (SHAPES if tier == "quick" else SHAPES + [(3,), (3, 2)]):
         for ninf in ninfs:
             if not shape and not ninf:
                 continue
